@@ -89,6 +89,8 @@ def main():
             elif st == "float_default":
                 torch.set_default_dtype(torch.float32)
 
+    _shared = {}
+
     def seeded_call(logs, tag, reuse_settings=False):
         what = job["what"]
         trace = []
@@ -134,9 +136,12 @@ def main():
 
                 if job.get("sim_design") == "table":
                     # visits given as a table: string identifiers in inclusion order (not sorted), unsorted rows
-                    ids_ = ["sub-%s" % x for x in ("k", "b", "z", "a", "m", "c", "y", "d")]
-                    rows_ = [(s_, round(60.0 + 3.0 * j_ + 1.5 * v_, 2)) for j_, s_ in enumerate(ids_) for v_ in (2, 0, 1)]
-                    vp = {"visit_type": "dataframe", "df_visits": pd.DataFrame(rows_, columns=["ID", "TIME"])}
+                    if "table" not in _shared:
+                        ids_ = ["sub-%s" % x for x in ("k", "b", "z", "a", "m", "c", "y", "d")]
+                        rows_ = [(s_, round(60.0 + 3.0 * j_ + 1.5 * v_, 2)) for j_, s_ in enumerate(ids_) for v_ in (2, 0, 1)]
+                        _shared["table"] = pd.DataFrame(rows_, columns=["ID", "TIME"])
+                    # one table object for every call of this interpreter (a caller re-using its design)
+                    vp = {"visit_type": "dataframe", "df_visits": _shared["table"]}
                 res = m.simulate(algorithm="simulate", features=list(m.features), visit_parameters=vp, seed=job["seed"])
                 d = res.data.to_dataframe()
                 ipd = res.individual_parameters
